@@ -11,9 +11,25 @@ pub(crate) fn generate_normalization_ast_text<'schema, 'a>(
     indentation_level: u8,
 ) -> NormalizationAstText {
     let mut normalization_ast_text = "[\n".to_string();
+    let mut is_empty = true;
     for item in selection_map {
+        is_empty = false;
         let s = generate_normalization_ast_node(item, indentation_level + 1);
         normalization_ast_text.push_str(&s);
+    }
+    if is_empty {
+        // The query text selects __typename in place of an empty selection set
+        // (write_selections_for_query_text), so the normalization AST must know that field, too.
+        let indent = "  ".repeat((indentation_level + 1) as usize);
+        let indent_2 = "  ".repeat((indentation_level + 2) as usize);
+        normalization_ast_text.push_str(&format!(
+            "{indent}{{\n\
+            {indent_2}kind: \"Scalar\",\n\
+            {indent_2}isFallible: false,\n\
+            {indent_2}fieldName: \"__typename\",\n\
+            {indent_2}arguments: null,\n\
+            {indent}}},\n"
+        ));
     }
     normalization_ast_text.push_str(&format!("{}]", "  ".repeat(indentation_level as usize)));
     NormalizationAstText(normalization_ast_text)
